@@ -92,3 +92,75 @@ def emit(R):
     info["rules_fired"] = {k: v for k, v in R.counts.items() if v}
     info["drops"] = ["stream destructors become explicit fs_close at scope end (R12)", "the parallel branch and model evaluation are not part of this unit"]
     return out, info
+
+
+def _r12g_budget(R, b):
+    b = R.sub("R12g-stored", r'\bcomplete\.getNumStored\(\)', 'g_stored', b)
+    b = R.sub("R12g-loaded", r'\bgrid\.getNumLoaded\(\)', 'g_loaded', b)
+    b = R.sub("R12g-load", r'\bcomplete\.load\(\s*grid\s*\)\s*;', 'gh_load_complete();', b)
+    b = R.sub("R12g-candidates", r'\bmanager\s*=\s*candidates\(\s*grid\s*\)\s*;', 'gh_new_candidates();', b)
+    b = R.sub("R12g-next", r'\bmanager\.next\(', 'gh_next(', b)
+    b = R.sub("R12g-manager", r'\bmanager\.getNumCandidates\(\)', 'g_ncand', b)
+    b = R.sub("R12g-manager", r'\bmanager\.getNumDone\(\)', 'g_ndone', b)
+    b = R.sub("R12g-manager", r'\bmanager\.complete\(\s*x\s*\)\s*;', 'gh_manager_complete(x);', b)
+    b = R.sub("R12g-add", r'\bcomplete\.add\(\s*x\s*,\s*y\s*\)\s*;', 'gh_complete_add(x);', b)
+    b = R.sub("R12g-model", r'(?<![\w.>])model\(\s*x\s*,\s*y\s*,\s*0\s*\)\s*;', 'gh_model(x);', b)
+    b = R.sub("R12g-guess", r'(?<![\w.>])set_initial_guess\(\s*x\s*,\s*y\s*\)\s*;', '', b)
+    b = R.sub("R12g-checkpoint", r'(?<![\w.>])checkpoint\(\)\s*;', 'gh_checkpoint();', b)
+    b = R.sub("R5g-empty", r'\bx\.empty\(\)', '(x == 0)', b)
+    b = R.sub("R5g-size", r'\bx\.size\(\)\s*/\s*num_dimensions', 'x', b)
+    b = R.sub("R2-functional-cast", r'\bdouble\(([^()]*)\)', r'((double)(\1))', b)
+    return b
+
+def emit_budget(R, loop_contract):
+    """Budget accounting of constructCommon: the lambdas load_complete / refresh_candidates / checkout_sample,
+    the initial value of total_num_launched and the sequential sampling loop, on ghost counters (R12g)."""
+    text = X.strip_comments(X.read_source(HPP))
+    (p,) = X.cut(HPP, SIG, text)
+    body = p.body
+    outs = ["static size_t total_num_launched, max_num_points, num_dimensions;"]
+    def lam(name, ret):
+        m = re.search(r'auto\s+%s\s*=\s*\[&\]\s*\(\s*\)\s*->\s*%s\s*(?=\{)' % (name, ret), body)
+        if not m:
+            raise X.ExtractionBreak("constructCommon: lambda %s not found" % name)
+        e = X.match_close(body, m.end())
+        R.counts["R7-hoist"] = R.counts.get("R7-hoist", 0) + 1
+        return body[m.end():e + 1], p.line + (p.header + body[:m.start()]).count('\n')
+    lc, l1 = lam("load_complete", "void")
+    rc, l2 = lam("refresh_candidates", "void")
+    cs, l3 = lam("checkout_sample", r'std::vector<double>')
+    for nm, b, ln, ret in (("load_complete", lc, l1, "void"), ("refresh_candidates", rc, l2, "void"), ("checkout_sample", cs, l3, "size_t")):
+        b = _r12g_budget(R, b)
+        b = R.sub("R5g-auto", r'\bauto\s+x\s*=', 'size_t x =', b)
+        X.check_leftover(b, nm)
+        outs.append('#line %d "%s"\nstatic %s %s(void)%s' % (ln, X.REPO + "/" + p.rel, ret, nm, b))
+    mi = re.search(r'size_t\s+total_num_launched\s*=\s*([^;]*);', body)
+    if not mi:
+        raise X.ExtractionBreak("constructCommon: initial value of total_num_launched not found")
+    init = _r12g_budget(R, mi.group(1))
+    ln = p.line + (p.header + body[:mi.start()]).count('\n')
+    outs.append('#line %d "%s"\nstatic void init_launched(void){ total_num_launched = %s; }' % (ln, X.REPO + "/" + p.rel, init))
+    # sequential branch: the else-block of `if (parallel_construction == mode_parallel)`
+    mp = re.search(r'if\s*\(\s*parallel_construction\s*==\s*mode_parallel\s*\)\s*(?=\{)', body)
+    if not mp:
+        raise X.ExtractionBreak("constructCommon: parallel/sequential branch not found")
+    e = X.match_close(body, mp.end())
+    me = re.match(r'\s*else\s*(?=\{)', body[e + 1:])
+    if not me:
+        raise X.ExtractionBreak("constructCommon: sequential branch not found")
+    s0 = e + 1 + me.end()
+    e2 = X.match_close(body, s0)
+    seq = body[s0:e2 + 1]
+    src = seq
+    seq = R.sub("R5-local-vector", r'std::vector<double>\s+x\([^;]*\)\s*,\s*y\([^;]*\)\s*;', 'size_t x = 0;', seq)
+    seq = _r12g_budget(R, seq)
+    X.check_leftover(seq, "sequential loop")
+    ln = p.line + (p.header + body[:s0]).count('\n')
+    outs.append('#line %d "%s"\n' % (ln, X.REPO + "/" + p.rel) + X.splice("static void sequential_loop(void)", seq, None, {0: loop_contract}))
+    R.require({"R12g-next": 4, "R12g-candidates": 1, "R12g-load": 1, "R12g-model": 1, "R12g-add": 1, "R7-hoist": 3})
+    info = {"functions": [{"name": "TasGrid::constructCommon (budget accounting: load_complete, refresh_candidates, checkout_sample, total_num_launched, sequential loop)", "file": p.rel, "line": p.line, "loops": 1}],
+            "rules_fired": {k: v for k, v in R.counts.items() if v},
+            "fidelity": X.fidelity(src, seq, extra_vocab=["x", "y", "grid", "getNumDimensions", "getNumOutputs", "manager", "next", "getNumCandidates", "getNumDone", "complete", "add", "getNumStored", "getNumLoaded",
+                                                         "model", "set_initial_guess", "checkpoint", "empty", "size", "num_dimensions", "double", "0", "/"], slack=12),
+            "drops": ["the parallel branch (threads, condition variables)", "set_initial_guess (no effect on the counts)", "sample values: only counts of points are modelled"]}
+    return "\n".join(outs) + "\n", info
